@@ -744,3 +744,101 @@ fn privileged_type_scenario(ttype: TransactionType, with_ticket: bool, copies: u
         Err(_) => { use std::io::Write; let _ = writeln!(std::io::stderr(), "WITNESS: adding a block that carries {} {:?}-typed transaction(s) with no inputs and a 1000000-nolan output each did not return (the node aborted)", copies, ttype); panic!("scenario did not finish"); }
     }
 }
+
+/// C11 (verification thread): whatever block buffer a peer serves, VerificationThread::verify_block returns — here a
+/// well-formed block whose first transaction names the same output twice, a truncated buffer, and a buffer whose block
+/// does not match the announced hash.
+#[test]
+#[serial_test::serial]
+fn fetched_block_buffers_never_stop_the_verification_thread() {
+    use crate::core::verification_thread::VerificationThread;
+    use crate::core::defs::StatVariable;
+    use crate::core::consensus::peers::peer_collection::PeerCollection;
+    let (tx_done, rx_done) = std::sync::mpsc::channel::<Option<String>>();
+    std::thread::spawn(move || {
+        let rt = tokio::runtime::Builder::new_current_thread().enable_all().build().unwrap();
+        rt.block_on(async move {
+            let mut t = TestManager::default();
+            t.initialize(100, 200_000_000_000_000).await;
+            let (b1, ts) = { let bc = t.blockchain_lock.read().await; let b = bc.get_latest_block().unwrap(); (b.hash, b.timestamp) };
+            let sk = { t.wallet_lock.read().await.private_key };
+            let mut honest = t.create_block(b1, ts + 120000, 1, 0, 0, true).await; honest.generate().unwrap();
+            let honest_buffer = honest.serialize_for_net(BlockType::Full);
+            let mut b2 = t.create_block(b1, ts + 120000, 1, 1000, 0, true).await;
+            // the block's first transaction names the same output twice
+            let k = b2.transactions.iter().position(|tx| tx.transaction_type == TransactionType::Normal && tx.from.iter().any(|s| s.amount > 0)).unwrap();
+            let mut twice = b2.transactions.remove(k);
+            let dup = twice.from.iter().find(|s| s.amount > 0).unwrap().clone();
+            twice.from.push(dup);
+            twice.sign(&sk);
+            b2.transactions.insert(0, twice);
+            b2.merkle_root = [0; 32];
+            b2.created_hashmap_of_slips_spent_this_block = false;
+            let _ = b2.generate();
+            b2.sign(&sk);
+            let _ = b2.generate();
+            let good_buffer = b2.serialize_for_net(BlockType::Full);
+            if std::env::var("VERIF_TRACE").is_ok() {
+                let mut d = Block::deserialize_from_net(&good_buffer).unwrap();
+                let r = d.generate();
+                println!("TRACE txs {} generate -> {:?}; types {:?}", d.transactions.len(), r.is_ok(), d.transactions.iter().map(|t| (t.transaction_type, t.from.iter().map(|s| (s.amount, s.block_id, s.tx_ordinal, s.slip_index)).collect::<Vec<_>>())).collect::<Vec<_>>());
+            }
+            let (stat_tx, _stat_rx) = tokio::sync::mpsc::channel::<String>(100);
+            let (cons_tx, mut cons_rx) = tokio::sync::mpsc::channel(100);
+            let mut vt = VerificationThread {
+                sender_to_consensus: cons_tx,
+                blockchain_lock: t.blockchain_lock.clone(),
+                peer_lock: {
+                    let mut pc = PeerCollection::default();
+                    pc.index_to_peers.insert(1, crate::core::consensus::peers::peer::Peer::new(1));
+                    std::sync::Arc::new(tokio::sync::RwLock::new(pc))
+                },
+                wallet_lock: t.wallet_lock.clone(),
+                processed_txs: StatVariable::new("a".into(), 10, stat_tx.clone()),
+                processed_blocks: StatVariable::new("b".into(), 10, stat_tx.clone()),
+                processed_msgs: StatVariable::new("c".into(), 10, stat_tx.clone()),
+                invalid_txs: StatVariable::new("d".into(), 10, stat_tx.clone()),
+                stat_sender: stat_tx.clone(),
+            };
+            // (what, buffer, announced hash, announced id, must it reach the consensus thread?)
+            let cases: Vec<(&str, Vec<u8>, SaitoHash, u64, bool)> = vec![
+                ("a truncated block buffer", honest_buffer[..honest_buffer.len() / 2].to_vec(), honest.hash, 2, false),
+                ("a block that does not carry the announced hash", honest_buffer.clone(), [9u8; 32], 2, false),
+                ("a block that does not carry the announced id", honest_buffer.clone(), honest.hash, 3, false),
+                ("a valid block under its own hash", honest_buffer.clone(), honest.hash, 2, true),
+                ("a well-formed block whose first transaction names the same output twice", good_buffer.clone(), b2.hash, 2, false),
+            ];
+            for (what, buffer, hash, id, expect_forward) in cases {
+                let charged_before = format!("{:?}", vt.peer_lock.read().await.index_to_peers.get(&1).unwrap().invalid_block_limiter);
+                let r = std::panic::AssertUnwindSafe(vt.verify_block(&buffer, 1, hash, id));
+                let r = futures::FutureExt::catch_unwind(r).await;
+                if r.is_err() {
+                    let _ = tx_done.send(Some(format!("VerificationThread::verify_block panicked on {} ({} bytes) served by a peer — the verification thread is gone", what, buffer.len())));
+                    return;
+                }
+                let charged_after = format!("{:?}", vt.peer_lock.read().await.index_to_peers.get(&1).unwrap().invalid_block_limiter);
+                let mut forwarded = 0;
+                while cons_rx.try_recv().is_ok() { forwarded += 1; }
+                if forwarded > 0 && !expect_forward { let _ = tx_done.send(Some(format!("{} was handed to the consensus thread", what))); return; }
+                if forwarded == 0 && expect_forward { let _ = tx_done.send(Some(format!("{} was not handed to the consensus thread", what))); return; }
+                if forwarded == 0 && charged_after == charged_before { let _ = tx_done.send(Some(format!("{} was dropped without being counted against the peer that served it", what))); return; }
+            }
+            // transactions: only what Transaction::validate accepts goes on to the consensus thread
+            let good_tx = honest.transactions.iter().find(|tx| tx.transaction_type == TransactionType::Normal).unwrap().clone();
+            let mut bad_tx = good_tx.clone(); bad_tx.signature = [3u8; 64];
+            for (what, tx, expect_forward) in [("a transaction with a forged signature", bad_tx, false), ("a valid transaction", good_tx, true)] {
+                let r = futures::FutureExt::catch_unwind(std::panic::AssertUnwindSafe(vt.verify_tx(tx))).await;
+                if r.is_err() { let _ = tx_done.send(Some(format!("VerificationThread::verify_tx panicked on {}", what))); return; }
+                let mut forwarded = 0;
+                while cons_rx.try_recv().is_ok() { forwarded += 1; }
+                if (forwarded > 0) != expect_forward { let _ = tx_done.send(Some(format!("{} was {}handed to the consensus thread", what, if expect_forward { "not " } else { "" }))); return; }
+            }
+            let _ = tx_done.send(None);
+        });
+    });
+    match rx_done.recv_timeout(std::time::Duration::from_secs(120)) {
+        Ok(None) => {}
+        Ok(Some(w)) => witness(w),
+        Err(_) => panic!("scenario did not finish"),
+    }
+}
